@@ -259,6 +259,11 @@ func load(o *harness.Outcome, step int, cfg *Cfg, l *lst, perRes bool) {
 			var rules []*hotspot.Rule
 			mkR := func() *hotspot.Rule {
 				r := hotR(cfg)
+				if l.rSpec && cfg.Kind == kHotConc && cfg.P2%2 == 0 {
+					// for a concurrency rule the duration is a field without effect (it only matters for QPS rules)
+					r.DurationInSec = 1
+					return r
+				}
 				if l.rSpec {
 					r.SpecificItems = map[interface{}]int64{"never-requested": 1000000}
 				}
